@@ -602,15 +602,7 @@ class SymInt:
         return self
 
     def bit_length(self):
-        x = abs(self)
-        if isinstance(x, int):
-            return x.bit_length()
-        n = 0
-        while x >= (1 << n):
-            n += 1
-            if n > 130:
-                raise BoundExceeded('bit_length > 130')
-        return n
+        return BitLen(self)
 
     def to_bytes(self, length=1, byteorder='big', *, signed=False):
         from . import bytes_
@@ -869,6 +861,50 @@ class SymInt:
         return self._cmp(o, '__ne__')
 
 
+class BitLen:
+    """int.bit_length() of a SymInt: comparisons with constants become thresholds on |x|."""
+    __sx_sym__ = True
+
+    def __init__(self, x):
+        self.x = abs(x)
+
+    def _ge(self, k):          # bit_length >= k  <=>  |x| >= 2**(k-1)   (k >= 1)
+        if k <= 0:
+            return True
+        return self.x >= (1 << (k - 1))
+
+    def __gt__(self, k):
+        return self._ge(k + 1)
+
+    def __ge__(self, k):
+        return self._ge(k)
+
+    def __lt__(self, k):
+        return sx_not(self._ge(k))
+
+    def __le__(self, k):
+        return sx_not(self._ge(k + 1))
+
+    def __eq__(self, k):
+        return sx_and(self._ge(k), sx_not(self._ge(k + 1)))
+
+    def __ne__(self, k):
+        return sx_not(self.__eq__(k))
+
+    def __index__(self):
+        n = 0
+        while self._ge(n + 1):
+            n += 1
+            if n > 130:
+                raise BoundExceeded('bit_length > 130')
+        return n
+
+    __int__ = __index__
+
+    def __hash__(self):
+        return hash(self.__index__())
+
+
 # ---------------------------------------------------------------------------
 # division lowering
 
@@ -1027,10 +1063,12 @@ def to_bits(x, width):
 
 
 def sx_min(*args, **kw):
+    orig = args
     if len(args) == 1:
         args = tuple(args[0])
+        orig = (args,)
     if not any(is_sym(a) for a in args) or kw:
-        return min(*args, **kw)
+        return min(*orig, **kw)
     from . import floats
     if any(isinstance(a, (float, floats.SymFloat)) for a in args):
         r = args[0]
@@ -1057,10 +1095,12 @@ def sx_min(*args, **kw):
 
 
 def sx_max(*args, **kw):
+    orig = args
     if len(args) == 1:
         args = tuple(args[0])
+        orig = (args,)
     if not any(is_sym(a) for a in args) or kw:
-        return max(*args, **kw)
+        return max(*orig, **kw)
     r = args[0]
     for a in args[1:]:
         if not isinstance(a, (int, SymInt, SymBool)) or not isinstance(r, (int, SymInt, SymBool)):
